@@ -1,6 +1,7 @@
 import Req.Driver.Proto
 import Req.H1.Response
 import Req.C03.H2Cut
+import Req.C03.H3Cut
 /-! Driver lanes of C03.
 
 `c03cut <G|H> <eof|hold> <hex stream> <k>`: the peer sends the first `k` bytes of the stream in
@@ -18,6 +19,12 @@ the call failed before the response head with an error the transport replays a b
 for; mode `s` = streaming caller: a body failure names the bytes delivered before it) and how
 many connections will have been dialled after the next request (`dials=1` iff the connection can
 take a new request and is still in the pool).
+
+`c03h3 <head 0|1> <segs> <fin|reset|close> <fieldlists> <mode s|a>`: HTTP/3 — the bytes of the
+response stream as they arrive, how the stream ends (FIN, stream reset, connection close) and the
+decoded field list of every HEADERS frame (QPACK is external).  Answer: `fail` / `fail-call` /
+`fail-body delivered=…` / `ok status=… body=…` and the dials after the next request (2 iff the
+call failed — `RoundTripOpt` drops the cached connection — or the connection was closed).
 -/
 namespace Req.Driver.L.C03
 open Req.Proto Req.H1
@@ -95,9 +102,39 @@ def laneH2 : List String → String
     | _, _, _ => "bad-op"
   | _ => "bad-op"
 
+/-! ### HTTP/3 -/
+
+def decodeFieldLists (s : String) : Option (List (List (Bytes × Bytes))) :=
+  if s == "none" then some [] else (s.splitOn "/").mapM decodeFields
+
+def parseH3End : String → Option H3End
+  | "fin" => some .fin
+  | "reset" => some (.reset 0)
+  | "close" => some (.connClose 0)
+  | _ => none
+
+def laneH3 : List String → String
+  | [hd, segs, fin, fls, mode] =>
+    match parseBool01 hd, decodeList segs, parseH3End fin, decodeFieldLists fls with
+    | some isHead, some segs, some e, some fls =>
+      if mode != "s" && mode != "a" then "bad-op" else
+      let o := h3Outcome isHead segs e.net fls 10485760 512
+      (match o with
+       | .callFailed => if mode == "s" then "fail-call" else "fail"
+       | .ok st body => "ok status=" ++ toString st ++ " body=" ++ encodeHex body
+       | .bodyFailed _ d _ =>
+         -- after a reset / connection close the bytes still in flight are lost: only FIN fixes them
+         if mode == "s" && e == .fin then "fail-body delivered=" ++ encodeHex d
+         else if mode == "s" then "fail-body" else "fail"
+       | .bodyOpen _ d => "open delivered=" ++ encodeHex d)
+      ++ " dials=" ++ toString (h3DialsAfterSecond e o)
+    | _, _, _, _ => "bad-op"
+  | _ => "bad-op"
+
 def lanes : List (String × (List String → String)) := [
   ("c03cut", laneCut),
-  ("c03h2", laneH2)
+  ("c03h2", laneH2),
+  ("c03h3", laneH3)
 ]
 
 end Req.Driver.L.C03
